@@ -51,16 +51,43 @@ PROPS = {
                                              "validated by execution against numba on every run, not proved)"],
     },
     "C11": {
-        "harness": "c11", "level": "proof", "category": "proof", "design_ref": "DESIGN.md 5/C11, 4.1",
-        "technique": "Lean 4 proof (invariant by induction over offer sequences) + bit-exact differential correspondence",
+        "harness": "c11", "level": "proof", "category": "proof", "design_ref": "DESIGN.md 5/C11, 4.1", "translators": ["kernels"],
+        "technique": "Lean 4 proof (invariant by induction over offer sequences) + refinement theorems over the regenerated Lean translation "
+                     "of the heap kernels' source (every input; memory safety included) + bit-exact differential correspondence",
         "text": "Lean theorems topk_checked, topk_simple, push_accept_perm, push_reject_id, deheapSort_spec about a literal model of the "
-                "three push kernels and deheap_sort, for every heap size, linear order and offer sequence; the model is tied to the numba "
-                "kernels by bit-exact comparison after every single operation on generated sequences, and the property predicate is "
-                "evaluated on the real kernels' output",
-        "note": TB + "the sampled bit-exact correspondence between the Lean model and utils.py; float32 priorities without NaN; rows < 65536 slots",
-        "explanation": "theorems over every heap size / linear order / offer sequence; correspondence after every single push and after deheap_sort",
+                "three push kernels and deheap_sort, for every heap size, linear order and offer sequence. For simple_heap_push, "
+                "checked_heap_push, checked_flagged_heap_push and siftdown the tie between model and code is itself a theorem: "
+                "harness/translate_kernels.py re-translates the kernels' source text into Lean on every run (Gen/Kernels.lean: Option monad, "
+                "out-of-bounds load/store = none, loops over fuel) and kernel_simple_heap_push_refines, kernel_checked_heap_push_refines, "
+                "kernel_checked_flagged_heap_push_refines, kernel_siftdown_refines prove that for every input (equal-sized arrays, non-empty "
+                "row, fuel >= size + 1) the translated kernel returns exactly the model's row and return value; kernel_pushes_memory_safe: no "
+                "load or store ever leaves an array; kernel_push_empty_row_out_of_bounds: on an empty row the pushes do read priorities[0] out "
+                "of bounds (k >= 1 is a real precondition); kernel_arrays_determined: the zipped row determines the arrays; kernel_checked_topk / "
+                "kernel_flagged_topk / kernel_simple_topk: any offer sequence fed through the translated checked_heap_push / "
+                "checked_flagged_heap_push / simple_heap_push (distinct offers) from make_heap's arrays never leaves them and ends with the "
+                "k best distinct candidates in the arrays; kernel_deheap_sort_refines / kernel_deheap_sort_sorts: the translated deheap_sort itself (2-D arrays, the "
+                "views A[i, :j] handed to the translated siftdown with write-back) never leaves an array on rectangular n x k input and "
+                "turns every row into the model's deheapSort of that row, hence (heap rows) ascending with the same (candidate, distance) "
+                "pairs; kernel_deheap_sort_spec: the same for the per-row loop written out by hand over the translated siftdown. The refinement theorems use "
+                "no order axioms (any type with decidable <=, <: they also hold of float32 with NaN). A change to a kernel changes the "
+                "generated definitions and the refinement proofs stop building (a kernel that leaves the translated subset becomes a stub "
+                "`none`, so the driver still builds and the proofs still fail). The translator is validated by execution: every "
+                "single push of every generated sequence, utils.siftdown calls, utils.deheap_sort calls (1 x k and 2 x k) and every "
+                "apply_graph_updates_low_memory case are also run through the generated kernels by the driver (gk_push, gk_siftdown, "
+                "gk_deheap, gk_apply) and compared bit for bit with the numba kernels; the model stays compared bit for bit with the real "
+                "kernels after every operation as before (pushes, deheap_sort, both update appliers, heap initialisers), and the property "
+                "predicate is evaluated on the real kernels' output",
+        "note": TB + "the translator harness/translate_kernels.py (syntax-directed, anything unsupported turns the kernel into a `none` stub and breaks the proof; "
+                     "validated on every run by executing its output against the numba kernels bit for bit) for the four heap kernels and deheap_sort (prange read as range: row independence is C05's obligation); "
+                     "the sampled bit-exact correspondence between the Lean model and utils.py for the callers (update appliers, heap "
+                     "initialisers); integer locals are "
+                     "unbounded Int in the translation (uint16 cursors: rows < 65536 slots); float32 priorities without NaN",
+        "explanation": "theorems over every heap size / linear order / offer sequence; refinement theorems generated-kernel = model for every input "
+                       "(regenerated from the source each run); correspondence after every single push and after deheap_sort; generated kernels "
+                       "executed against numba on every push",
         "assumptions": COMMON_ASSUMPTIONS + ["float32 priorities are totally ordered (no NaN reaches a heap)",
-                                             "uint16 loop counters in the kernels: rows shorter than 65536 slots"],
+                                             "uint16 loop counters in the kernels: rows shorter than 65536 slots",
+                                             "parallel heap arrays have equal lengths and at least one slot (make_heap with size >= 1)"],
     },
     "C01": {
         "harness": "c01", "level": "proof", "category": "proof", "design_ref": "DESIGN.md 5/C01, 4.2", "translators": [],
